@@ -124,13 +124,22 @@ def consistency(rep, res, entry, rule="R-TYPESTATE"):
         if a_s is None or (a_s.known and not a_s.const) or (ev.loc, ev.text()) in seen:
             continue
         seen.add((ev.loc, ev.text()))
-        x = ev.d["x"]
+        x, y = ev.d["x"], ev.d["y"]
         st = True if x.tag("sorted") else (False if a_s.known else None)
+        if x.tag("sorted_by") is not None and y is not None and y.tag("reordered_by") != x.tag("sorted_by"):
+            st = False          # the domain was sorted but the array was not reordered with the same permutation
         rep.check(rule, "the interpolator does not assume an ascending domain", st, where=ev.loc, construct=ev.text()[:80], entry=entry,
                   config=res.config,
                   msg="interp1d(..., assume_sorted=True) on a domain as the caller listed it: a descending or shuffled (but otherwise valid) "
                       "domain is treated as out of range everywhere and the array is resampled to the fill value (captures of 0)")
     for ev in res.events("eq_call"):
+        for (did, lon, d, a) in ev.d["pairs"]:
+            if a is not None and a.tag("squared") is not None:
+                rep.violated(rule, "nonlinear maps are applied after resampling", where=ev.loc, construct=ev.text()[:80], entry=entry,
+                             config=res.config,
+                             msg="an array that was squared is handed to the equalisation: linear interpolation does not commute with the "
+                                 "square (interp(s²) ≠ interp(s)²), so the variance integrand differs from the squared resampled signal "
+                                 "wherever the signal is truly interpolated")
         for (did, lon, d, a) in ev.d["pairs"]:
             if did is None or lon is None:
                 rep.undecided(rule, "equalisation pairs each array with its own domain", where=ev.loc, construct=ev.text(),
